@@ -110,7 +110,7 @@ type BuildInfo struct {
 
 // Build returns the path of the instrumented binary of mainPkg (a package path inside the harness
 // module or inside /repo).
-func Build(ctx *common.Ctx, tag string, specs []PkgSpec, mainPkg string, race bool) (*BuildInfo, error) {
+func Build(ctx *common.Ctx, tag string, specs []PkgSpec, mainPkg string, race bool, extraTags ...string) (*BuildInfo, error) {
 	dir := filepath.Join(ctx.Work, "instr-"+tag)
 	info := &BuildInfo{Counts: map[string]int{}, PkgVars: map[string][]string{}}
 	ov := struct{ Replace map[string]string }{map[string]string{}}
@@ -135,7 +135,7 @@ func Build(ctx *common.Ctx, tag string, specs []PkgSpec, mainPkg string, race bo
 		return nil, err
 	}
 	info.Bin = filepath.Join(dir, "bin")
-	args := []string{"build", "-tags", "verif_instr", "-overlay", info.Overlay, "-o", info.Bin}
+	args := []string{"build", "-tags", strings.Join(append([]string{"verif_instr"}, extraTags...), ","), "-overlay", info.Overlay, "-o", info.Bin}
 	if race {
 		args = append(args, "-race")
 	}
@@ -332,4 +332,19 @@ func SubMain(handlers map[string]Handler) {
 		os.Exit(2)
 	}
 	os.Exit(0)
+}
+
+// Discover lists the package-level variables of the given packages (a throw-away analysis pass).
+func Discover(ctx *common.Ctx, specs []PkgSpec) (map[string][]string, error) {
+	out := map[string][]string{}
+	for i, sp := range specs {
+		dir := filepath.Join(ctx.Work, fmt.Sprintf("discover-%d", i))
+		res, err := vinstr.Instrument(vinstr.Options{Dir: sp.Dir, OutDir: dir})
+		_ = os.RemoveAll(dir)
+		if err != nil {
+			return nil, err
+		}
+		out[sp.Dir] = res.PkgVars
+	}
+	return out, nil
 }
